@@ -264,3 +264,30 @@ Proof.
   assert (Hd : In dir [true; false]) by (destruct dir; cbn; auto). specialize (H _ Hd).
   rewrite forallb_forall in H. specialize (H _ Hi). rewrite forallb_forall in H. exact (H _ Hk).
 Qed.
+
+(** * A window that does not fit the receiver's buffer (finding D8) *)
+
+(** Block size 8, window 3, a file of 6 blocks, a receiver whose buffer takes two datagrams of
+    every burst: the sender goes back to the start of the window at every time-out, the same two
+    blocks arrive again and are ignored, nothing is ever acknowledged; both sides give up and the
+    partial file is removed.  The state reached is final. *)
+Definition capacity_witness : pair_state :=
+  let sc := mk_scfg 8 3 1000000000 1 false [] in
+  let rc := mk_rcfg 8 3 1000000000 1 true [] in
+  pair_run_cap sc rc 2 200 (pair_init_cap sc rc 2 (pattern_file 40)).
+
+Theorem capacity_livelock :
+  let sc := mk_scfg 8 3 1000000000 1 false [] in
+  let rc := mk_rcfg 8 3 1000000000 1 true [] in
+  s_phase (p_s capacity_witness) = SDone OutTimeout /\ r_phase (p_r capacity_witness) = RDone OutTimeout /\
+  recv_final_file rc (p_r capacity_witness) = None /\ pair_step_cap sc rc 2 capacity_witness = None.
+Proof. vm_compute. repeat split; reflexivity. Qed.
+
+(** The same transfer through a buffer that takes the whole window completes. *)
+Theorem capacity_sufficient :
+  let sc := mk_scfg 8 3 1000000000 1 false [] in
+  let rc := mk_rcfg 8 3 1000000000 1 true [] in
+  let p := pair_run_cap sc rc 3 200 (pair_init_cap sc rc 3 (pattern_file 40)) in
+  s_phase (p_s p) = SDone OutOk /\ r_phase (p_r p) = RDone OutOk /\
+  match recv_final_file rc (p_r p) with Some w => concat (rev w) = pattern_file 40 | None => False end.
+Proof. vm_compute. repeat split; reflexivity. Qed.
